@@ -99,7 +99,7 @@ func c20TickerReqs() int {
 
 func c20Attempt() {
 	// ---- the whole program is drawn up front
-	count := simrt.DrawRange(1, 6)
+	count := simrt.DrawRange(1, 6*simrt.Scale())
 	rate := []time.Duration{time.Microsecond, 50 * time.Microsecond, time.Millisecond, 100 * time.Millisecond}[simrt.Draw(4)]
 	half := rate / 2
 	recvMode := []int{c20Prompt, c20Paused, c20Paused, c20Heavy, c20Absent, c20Late}[simrt.Draw(6)]
